@@ -19,7 +19,7 @@ FUNCTIONS = ["DefaultResolver.resolve/process_arguments/process_options/process_
              "ResolveResult", "ConsoleApplication.resolve_command/add_command", "Command.add_sub_command/named_sub_commands/default_sub_commands", "CommandCollection.get/__contains__", "CommandConfig.default/anonymous/hide/disable"]
 PART = {}
 BOUNDS = {"quick": "one command tree of depth 3 / fan-out <= 3 with aliases; 3 tokens (14 x 14 x 9 menu literals: names, aliases, unknown names, short/long options, '--'); top-level command named/default/anonymous; 4 symbolic attribute bits (two default sub-commands, default sub-sub-command, disabled sub-command); hidden and disabled top-level commands present",
-          "thorough": "4 tokens from the menu, second tree shape"}
+          "thorough": "third token from the full 14-literal menu, hidden/disabled/command-string variants, 4-token lines below s/sv"}
 OUTSIDE = ["names longer than 2 characters, fan-out > 3, depth > 3", "which default wins when several default commands exist and only some parse (all commands are lenient here, so the first default is expected)",
            "empty-string tokens (the resolver treats '' like the end of the leading tokens)", "command lines longer than 4 tokens"]
 STUBS = ["every command uses lenient argument parsing so that selection is observed independently of C01/C02 parse failures"]
@@ -125,13 +125,13 @@ def resolve3(k2: int, k3: int, l_default: bool, x_default: bool, a_disabled: boo
 
 def resolve4(k3: int, k4: int, l_default: bool, r_mode: int, x_default: bool, a_disabled: bool, m_default: bool) -> bool:
     """
-    pre: 0 <= k3 < len(MENU) and 0 <= k4 < len(MENU)
+    pre: 0 <= k3 < len(MENU3) and 0 <= k4 < len(MENU3)
     pre: 0 <= r_mode <= 2
     post: _
     """
     r_mode = conc_int(r_mode, 0, 2)
     bits = (conc_bool(l_default), r_mode == 1, r_mode == 2, conc_bool(x_default), conc_bool(a_disabled), False, conc_bool(m_default), True)
-    tokens = [MENU[PART["k1"]], MENU[PART["k2"]], MENU[conc_int(k3, 0, len(MENU) - 1)], MENU[conc_int(k4, 0, len(MENU) - 1)]]
+    tokens = [MENU[PART["k1"]], MENU[PART["k2"]], MENU3[conc_int(k3, 0, len(MENU3) - 1)], MENU3[conc_int(k4, 0, len(MENU3) - 1)]]
     return untraced(_case, bits, tokens, False)
 
 
@@ -173,8 +173,8 @@ def conditions(tier):
                               "bounds": "first token %r, second from %r, third from %r; top-level 'r' %s; 4 symbolic attribute bits (default sub-commands l/m, default sub-sub-command x, disabled sub-command a); hidden h=%s, disabled d=%s; %s form" % (
                                   MENU[k1], MENU, MENU3 if quick else MENU, ["named", "default", "anonymous"][r_mode], hh, dd, "command-string" if as_string else "argv")})
     if not quick:
-        for k1 in range(len(MENU)):
-            for k2 in range(len(MENU)):
+        for k1 in (0, 1):                 # 's', 'sv'
+            for k2 in (2, 3, 4, 5):      # 'a', 'ad', 'l', 'x'  (paths that reach depth 2-3)
                 conds.append({"name": "resolve4[%r,%r]" % (MENU[k1], MENU[k2]), "fn": resolve4, "timeout": t, "part": {"k1": k1, "k2": k2},
                               "bounds": "tokens %r %r + 2 more from the menu; 6 tree attribute bits" % (MENU[k1], MENU[k2])})
     conds.append({"name": "resolve_twin", "fn": resolve_twin, "timeout": t, "expect": "refute", "part": {"k1": 1}, "bounds": "reachability twin"})
